@@ -55,6 +55,12 @@ def enumerate_cases(tier, seed):
                     yield {"chroot": ch, "setuid": su, "setgid": sg, "fail": None, "real": False, "ids": ids}
                     for c in calls:
                         yield {"chroot": ch, "setuid": su, "setgid": sg, "fail": c, "real": False, "ids": ids}
+                # other ways for a step to fail than EPERM (a transient-looking EAGAIN that persists, EINVAL, ENOMEM)
+                for c in calls:
+                    if c in ("getpwnam", "getgrnam"):
+                        continue
+                    for en in ("EAGAIN", "EINVAL", "ENOMEM"):
+                        yield {"chroot": ch, "setuid": su, "setgid": sg, "fail": c, "real": False, "ids": 0, "errno": en}
                 if ch:
                     # the directory the server is started from: the root itself, below it, and a sibling whose name extends
                     # the root's name ('<root>-private')
@@ -96,10 +102,11 @@ def _write_conf(base, root, case):
 
 
 class _Patches:
-    def __init__(self, trace, fail, ids=0):
+    def __init__(self, trace, fail, ids=0, errname="EPERM"):
         self.trace = trace
         self.fail = fail
         self.ids = ids
+        self.errname = errname
         self.saved = []
 
     def _set(self, obj, name, val):
@@ -116,7 +123,9 @@ class _Patches:
             def f(*a):
                 trace.append((name,) + tuple(a))
                 if fail == name:
-                    raise PermissionError(1, "Operation not permitted (injected)")
+                    import errno as _errno
+                    en = getattr(_errno, self.errname)
+                    raise OSError(en, os.strerror(en) + " (injected)")  # (EPERM gives PermissionError)
                 return ret
             return f
         for n in PRIV:
@@ -348,7 +357,7 @@ def check_case(case, ctx):
     try:
         ctx.label("chroot:%s" % case["chroot"], "setuid:%s" % case["setuid"], "setgid:%s" % case["setgid"],
                   "fail:%s" % case["fail"], "real" if case["real"] else "recorded", "ids:%s" % case.get("ids", 0),
-                  "started-from:%s" % case.get("cwd", "unrelated"))
+                  "started-from:%s" % case.get("cwd", "unrelated"), "errno:%s" % case.get("errno", "EPERM"))
         if case["chroot"] or case["setuid"] or case["setgid"] or case["fail"]:
             ctx.nontriv()
         if case["real"]:
@@ -393,7 +402,7 @@ def check_case(case, ctx):
         oldcwd = os.getcwd()
         if start:
             os.chdir(start)
-        with _Patches(trace, case["fail"], case.get("ids", 0)):
+        with _Patches(trace, case["fail"], case.get("ids", 0), case.get("errno", "EPERM")):
             try:
                 server = initialization.initialize(conf)
             except BaseException as e:
